@@ -21,37 +21,37 @@ open FpVerif FpVerif.Fut
 -- denotation of derived combinators --------------------------------------------------------------------
 
 /-- three-valued bind of fp.Try results -/
-theorem evalS_map (σ : Pid → Option (Try Val)) (e : FExpr) (f : Val → W Val) :
+theorem evalS_map (σ : Nat → Option (Try Val)) (e : FExpr) (f : Val → W Val) :
     evalS σ (Fut.map e f) = bindOk (evalS σ e) (fun v => some (.success (f v).1)) := by
   simp only [Fut.map, evalS]
 
-theorem evalS_map2 (σ : Pid → Option (Try Val)) (a b : Pid) (f : Val → Val → W Val) :
+theorem evalS_map2 (σ : Nat → Option (Try Val)) (a b : Nat) (f : Val → Val → W Val) :
     evalS σ (Fut.map2 a b f)
       = bindOk (σ a) (fun x => bindOk (σ b) (fun y => some (.success (f x y).1))) := by
   simp only [Fut.map2, evalS, Fut.map]
 
 /-- Map2 with `a` pending is pending whatever `b` is; with `a` failed it is that failure whatever `b` is
     (left-to-right short-circuit). -/
-theorem evalS_map2_pending (σ : Pid → Option (Try Val)) (a b : Pid) (f : Val → Val → W Val)
+theorem evalS_map2_pending (σ : Nat → Option (Try Val)) (a b : Nat) (f : Val → Val → W Val)
     (h : σ a = none) : evalS σ (Fut.map2 a b f) = none := by
   simp [evalS_map2, h, bindOk]
 
-theorem evalS_map2_first_failure (σ : Pid → Option (Try Val)) (a b : Pid) (f : Val → Val → W Val) (e : Err)
+theorem evalS_map2_first_failure (σ : Nat → Option (Try Val)) (a b : Nat) (f : Val → Val → W Val) (e : Err)
     (h : σ a = some (.failure e)) : evalS σ (Fut.map2 a b f) = some (.failure e) := by
   simp [evalS_map2, h, bindOk]
 
-theorem evalS_compose (σ : Pid → Option (Try Val)) (f1 f2 : Val → FExpr) (a : Val) :
+theorem evalS_compose (σ : Nat → Option (Try Val)) (f1 f2 : Val → FExpr) (a : Val) :
     evalS σ (Fut.compose f1 f2 a) = bindOk (evalS σ (f1 a)) (fun v => evalS σ (f2 v)) := rfl
 
 /-- Sequence keeps input order and short-circuits on the first failure in input order: stated through
     the accumulator form, for every list of handles. -/
-theorem evalS_sequenceAcc_cons (σ : Pid → Option (Try Val)) (p : Pid) (ps : List Pid) (acc : FExpr) :
+theorem evalS_sequenceAcc_cons (σ : Nat → Option (Try Val)) (p : Nat) (ps : List Nat) (acc : FExpr) :
     evalS σ (Fut.sequenceAcc (p :: ps) acc)
       = evalS σ (Fut.sequenceAcc ps (.flatMap acc (fun xs => Fut.map (.ref p)
           (fun x => (snocV xs x, []))))) := rfl
 
 /-- all operands successful: the result is the list of their values in input order -/
-theorem evalS_sequenceAcc_all_success (σ : Pid → Option (Try Val)) (pvs : List (Pid × Val)) (acc : FExpr)
+theorem evalS_sequenceAcc_all_success (σ : Nat → Option (Try Val)) (pvs : List (Nat × Val)) (acc : FExpr)
     (l0 : List Val) (hacc : evalS σ acc = some (.success (.seq l0)))
     (h : ∀ pv ∈ pvs, σ pv.1 = some (.success pv.2)) :
     evalS σ (Fut.sequenceAcc (pvs.map (·.1)) acc) = some (.success (.seq (l0 ++ pvs.map (·.2)))) := by
@@ -66,7 +66,7 @@ theorem evalS_sequenceAcc_all_success (σ : Pid → Option (Try Val)) (pvs : Lis
     simpa [List.append_assoc] using this
 
 /-- the first failing operand (in input order) decides, whatever the later operands are -/
-theorem evalS_sequenceAcc_failure (σ : Pid → Option (Try Val)) (ps : List Pid) (acc : FExpr) (e : Err)
+theorem evalS_sequenceAcc_failure (σ : Nat → Option (Try Val)) (ps : List Nat) (acc : FExpr) (e : Err)
     (hacc : evalS σ acc = some (.failure e)) :
     evalS σ (Fut.sequenceAcc ps acc) = some (.failure e) := by
   induction ps generalizing acc with
@@ -78,7 +78,7 @@ theorem evalS_sequenceAcc_failure (σ : Pid → Option (Try Val)) (ps : List Pid
 -- monotonicity ------------------------------------------------------------------------------------------
 
 /-- `σ'` knows at least what `σ` knows -/
-def Ext (σ σ' : Pid → Option (Try Val)) : Prop := ∀ p v, σ p = some v → σ' p = some v
+def Ext (σ σ' : Nat → Option (Try Val)) : Prop := ∀ p v, σ p = some v → σ' p = some v
 
 theorem bindOk_some {o : Option (Try Val)} {f : Val → Option (Try Val)} {r : Try Val}
     (h : bindOk o f = some r) :
@@ -97,7 +97,7 @@ theorem bindTry_some {o : Option (Try Val)} {f : Try Val → Option (Try Val)} {
   · simp at h
 
 /-- Once an expression is determined it stays determined with the same value, whatever else completes. -/
-theorem evalS_mono (σ σ' : Pid → Option (Try Val)) (hx : Ext σ σ') (e : FExpr) (r : Try Val)
+theorem evalS_mono (σ σ' : Nat → Option (Try Val)) (hx : Ext σ σ') (e : FExpr) (r : Try Val)
     (h : evalS σ e = some r) : evalS σ' e = some r := by
   induction e generalizing r with
   | ref p => exact hx p r h
@@ -140,7 +140,7 @@ theorem evalS_mono (σ σ' : Pid → Option (Try Val)) (hx : Ext σ σ') (e : FE
 
 -- the promise cell --------------------------------------------------------------------------------------
 
-theorem complete_status_mono (p q : Pid) (t : Try Val) (n : Net) (v : Try Val)
+theorem complete_status_mono (p q : Nat) (t : Try Val) (n : Net) (v : Try Val)
     (h : n.status q = some v) : (complete p t n).status q = some v := by
   unfold complete
   split
@@ -150,10 +150,10 @@ theorem complete_status_mono (p q : Pid) (t : Try Val) (n : Net) (v : Try Val)
     · subst hq; simp [hp] at h
     · simp [hq, h]
 
-theorem onComplete_status (p : Pid) (c : CB) (n : Net) : (onComplete p c n).status = n.status := by
+theorem onComplete_status (p : Nat) (c : CB) (n : Net) : (onComplete p c n).status = n.status := by
   unfold onComplete; split <;> rfl
 
-theorem build_status_mono (e : FExpr) (n : Net) (q : Pid) (v : Try Val) (h : n.status q = some v) :
+theorem build_status_mono (e : FExpr) (n : Net) (q : Nat) (v : Try Val) (h : n.status q = some v) :
     (build e n).2.status q = some v := by
   induction e generalizing n with
   | ref p => exact h
@@ -168,7 +168,7 @@ theorem build_status_mono (e : FExpr) (n : Net) (q : Pid) (v : Try Val) (h : n.s
   | orFuture e alt ihe iha => simp only [build, fresh, onComplete_status]; exact iha _ (ihe n h)
   | apply f => simpa [build, fresh] using h
 
-theorem runTask_status_mono (tk : Task) (n : Net) (q : Pid) (v : Try Val) (h : n.status q = some v) :
+theorem runTask_status_mono (tk : Task) (n : Net) (q : Nat) (v : Try Val) (h : n.status q = some v) :
     (runTask tk n).status q = some v := by
   cases tk with
   | applyT f np => simp only [runTask]; exact complete_status_mono _ _ _ _ _ h
@@ -195,7 +195,7 @@ theorem runTask_status_mono (tk : Task) (n : Net) (q : Pid) (v : Try Val) (h : n
       | failure e => simp only [runTask, onComplete_status]; exact h
     | observe id => exact h
 
-theorem step_status_mono (n : Net) (ev : Ev) (q : Pid) (v : Try Val) (h : n.status q = some v) :
+theorem step_status_mono (n : Net) (ev : Ev) (q : Nat) (v : Try Val) (h : n.status q = some v) :
     (step n ev).status q = some v := by
   cases ev with
   | run i =>
@@ -204,33 +204,35 @@ theorem step_status_mono (n : Net) (ev : Ev) (q : Pid) (v : Try Val) (h : n.stat
     · exact runTask_status_mono _ _ _ _ h
     · exact h
   | src p t => exact complete_status_mono _ _ _ _ _ h
+  | mk e => exact build_status_mono _ _ _ _ h
+  | obs p id => simp only [step, onComplete_status]; exact h
 
 /-- Single assignment, for EVERY sequence of events (any completion order of the sources, any order of
     running the pooled tasks, any later constructions done by callbacks): a completed promise keeps
     exactly that value forever. -/
-theorem single_assignment (n : Net) (evs : List Ev) (q : Pid) (v : Try Val) (h : n.status q = some v) :
+theorem single_assignment (n : Net) (evs : List Ev) (q : Nat) (v : Try Val) (h : n.status q = some v) :
     (runEvs n evs).status q = some v := by
   induction evs generalizing n with
   | nil => exact h
   | cons ev evs ih => exact ih _ (step_status_mono n ev q v h)
 
 /-- a second `Complete` on a completed promise returns false and changes neither its value nor the pool -/
-theorem complete_twice (p : Pid) (t : Try Val) (n : Net) (v : Try Val) (h : n.status p = some v) :
+theorem complete_twice (p : Nat) (t : Try Val) (n : Net) (v : Try Val) (h : n.status p = some v) :
     complete p t n = { n with completes := n.completes ++ [(p, false)] } := by
   simp [complete, h]
 
 /-- exactly-once delivery: completing a pending promise turns each registered callback into exactly one
     task (in registration order) and forgets the registrations … -/
-theorem complete_delivers (p : Pid) (t : Try Val) (n : Net) (h : n.status p = none) :
+theorem complete_delivers (p : Nat) (t : Try Val) (n : Net) (h : n.status p = none) :
     (complete p t n).pool = n.pool ++ (n.cbs p).map (fun c => Task.cb c t) ∧ (complete p t n).cbs p = [] := by
   simp [complete, h]
 
 /-- … and registering on an already completed promise queues the callback's task at once, with its value. -/
-theorem onComplete_completed (p : Pid) (c : CB) (n : Net) (t : Try Val) (h : n.status p = some t) :
+theorem onComplete_completed (p : Nat) (c : CB) (n : Net) (t : Try Val) (h : n.status p = some t) :
     (onComplete p c n).pool = n.pool ++ [Task.cb c t] ∧ (onComplete p c n).cbs = n.cbs := by
   simp [onComplete, h]
 
-theorem onComplete_pending (p : Pid) (c : CB) (n : Net) (h : n.status p = none) :
+theorem onComplete_pending (p : Nat) (c : CB) (n : Net) (h : n.status p = none) :
     (onComplete p c n).pool = n.pool ∧ (onComplete p c n).cbs p = n.cbs p ++ [c] := by
   simp [onComplete, h]
 
